@@ -182,6 +182,10 @@ def check(ctx, rep):
     rep.expect('R07.c', same, 'count-on-poll-waker', 'strong_count is taken on the Arc<CommandWaker> created for this poll',
                'the waker count in Command::run_task is not taken on the waker created for this poll')
     check_stream_end(rep, 'R07.e', core)
+    # R07.f: "woken during the poll" is read from the flag every wake must set, by reference or by value (shared with C05 R05.b)
+    from rules.props import c05 as _c05
+    rep.rule('R07.f', 'every way of waking a task waker enqueues the task, marks it woken and wakes the parent, on every path', floor=5)
+    _c05.check_wake_impls(rep, 'R07.f', core, None)
     # R07.d: the premise of the eviction test for the futures crux itself provides
     from rules.props import c05
     rep.rule('R07.d', 'every future provided by crux that stays Pending holds a clone of the current poll\'s waker (or is deliberately unwakeable): '
@@ -387,6 +391,21 @@ def check_stream_end(rep, rid, core):
                'every Pending return lies behind the empty edge of the event queue and of the effect queue',
                'Command::poll_next can return Pending without having found both output queues empty (at %s): outputs stay queued and, unless one '
                'of the command\'s own tasks wakes later, the host is never polled again' % [f.where(b) for b in stalls])
+    # an abort raised by the last task of the pass is acted on before the command reports its state: between the first settle (which may
+    # run tasks) and the end/Pending decision there is another point that looks at the aborted flag (a second settle — is_done() — or an
+    # explicit was_aborted()); otherwise the aborted command stays Pending with its tasks alive until something else polls it
+    from rules.common import Summaries as _Sm
+    _sm = _Sm([core])
+    LOOKS = ['crux_core::command::Command::run_until_settled', 'crux_core::command::Command::was_aborted', 'crux_core::command::Command::is_done']
+    settles = _sm.sites(f, ['crux_core::command::Command::run_until_settled'], 'must')
+    looks = [bb for bb, t in f.calls(*LOOKS)] + _sm.sites(f, LOOKS, 'must')
+    first = [b for b in settles if all(f.dominates(b, x) for x in settles)]
+    seen = bool(first) and all(b in first or not (set([b]) & f.reachable_ps(f.succ(first[0]), removed_blocks=[x for x in looks if x != first[0]]))
+                               for b in N + P)
+    rep.expect(rid, seen, 'poll_next|abort-seen-after-settle',
+               'every end / Pending decision lies behind a second look at the aborted flag after the settle that ran the tasks',
+               'Command::poll_next decides between stream end and Pending without looking at the aborted flag again after running the tasks: a '
+               'command aborted by the last task of the pass reports Pending (with its tasks alive) instead of ending')
     rep.expect(rid, n_dec >= 1, 'poll_next|decides', '%d switch(es) decide between stream end and Pending' % n_dec,
                'Command::poll_next: nothing decides between Ready(None) and Pending')
     rep.expect(rid, not bad, 'poll_next|end-iff-done', 'every deciding test reads is_done() or the emptiness of tasks / effects / events',
